@@ -286,19 +286,34 @@ impl SignerKey {
 fn one_issuance(ctx: &mut Ctx, pki: &Pki, label: &str, nss: Namespaces, auth: Option<Auth>, alg: DigestAlgorithm, decoys: bool, remote: bool, es384: bool, two_certs: bool) {
     let doc_type = if ctx.rng.gen_bool(0.7) { "org.iso.18013.5.1.mDL".to_string() } else { format!("doc.{}", rand_string(&mut ctx.rng, 10)) };
     let device_key = SigningKey::random(&mut ctx.rng);
-    let now = time::OffsetDateTime::now_utc();
+    let now = time::OffsetDateTime::now_utc().replace_nanosecond(0).unwrap();
+    // the issuer may hand over timestamps in any UTC offset (whole hours, +05:30, -03:30, +05:45 ...): the instant counts
+    let mut in_some_offset = |ctx: &mut Ctx, t: time::OffsetDateTime| -> time::OffsetDateTime {
+        let offs: [(i8, i8); 7] = [(0, 0), (0, 0), (1, 0), (5, 30), (-3, -30), (5, 45), (-11, 0)];
+        let (h, m) = offs[ctx.rng.gen_range(0..offs.len())];
+        t.to_offset(time::UtcOffset::from_hms(h, m, 0).unwrap())
+    };
+    let vf = now - time::Duration::days(ctx.rng.gen_range(0..400));
+    let vu = now + time::Duration::days(ctx.rng.gen_range(1..4000));
     let validity_info = ValidityInfo {
-        signed: now,
-        valid_from: now - time::Duration::days(ctx.rng.gen_range(0..400)),
-        valid_until: now + time::Duration::days(ctx.rng.gen_range(1..4000)),
-        expected_update: if ctx.rng.gen_bool(0.3) { Some(now + time::Duration::days(10)) } else { None },
+        signed: in_some_offset(ctx, now),
+        valid_from: in_some_offset(ctx, vf),
+        valid_until: in_some_offset(ctx, vu),
+        expected_update: if ctx.rng.gen_bool(0.3) { Some(in_some_offset(ctx, now + time::Duration::days(10))) } else { None },
     };
     let dki = DeviceKeyInfo {
         device_key: cose_key_of(&device_key),
         key_authorizations: auth.as_ref().map(auth_to_isomdl),
         key_info: if ctx.rng.gen_bool(0.2) { Some([(1i128, Value::Text("info".into())), (-3i128, Value::Bool(true))].into_iter().collect()) } else { None },
     };
-    let validity_v = as_value(&validity_info);
+    // the requested validity as the MSO must carry it, built WITHOUT the library's encoder: tdate of the instant in UTC
+    let tdate = |t: &time::OffsetDateTime| -> Value {
+        let utc = time::OffsetDateTime::from_unix_timestamp(t.unix_timestamp()).expect("instant");
+        Value::Tag(0, Box::new(Value::Text(utc.format(&time::format_description::well_known::Rfc3339).expect("format"))))
+    };
+    let mut vm = vec![(text("signed"), tdate(&validity_info.signed)), (text("validFrom"), tdate(&validity_info.valid_from)), (text("validUntil"), tdate(&validity_info.valid_until))];
+    if let Some(e) = &validity_info.expected_update { vm.push((text("expectedUpdate"), tdate(e))); }
+    let validity_v = Value::Map(vm);
     let dki_v = as_value(&dki);
     // x5chain and its expected header value, built from the certificates' DER directly
     let certs: Vec<x509_cert::Certificate> = if two_certs { vec![pki.ds.clone(), pki.iaca.clone()] } else { vec![pki.ds.clone()] };
